@@ -238,7 +238,9 @@ def replace_harness(e):
 def spec(tier: str, seed: int) -> Spec:
     n = 5 if tier == "quick" else 7
     shapes = [(s, False) for s in all_shapes(n, 3)]
-    cases = shapes + _shared_variants()
+    from models.shapes import exotic_shapes
+
+    cases = shapes + _shared_variants() + [(x, False) for x in exotic_shapes()]
     chunk = 12
     fams = [Family(f"duplicate[{k}:{k + chunk}]", make_duplicate_harness(cases[k : k + chunk]), variables="selectors: tree, twins, state of the original") for k in range(0, len(cases), chunk)]
     from checks.C05 import _mi_prepare
